@@ -15,7 +15,9 @@ One `Op` per atomic action of the real code, so that "for every schedule" is
 * `grow n`   – continuous mode: `updateSTH` accepted an STH of size `n` (only when the generator is at the end),
 * `stop`     – `Fetcher.Stop()`; `cancel` – the caller's context is cancelled,
 * `close`    – the generator goroutine exits (`close(ranges)`),
-* `take m` / `proc m` – matcher worker `m` receives the next queued entry / runs `processEntry` on it.
+* `take m j` / `proc m` – matcher worker `m` receives a queued entry / runs `processEntry` on it. The queue is a *bag*:
+  `flatten` pushes the entries of concurrently fetched batches one by one, so their order in the channel is not the order
+  of the responses; letting a matcher take any queued entry over-approximates every such interleaving.
 
 Payloads are abstract (`Nat`): `Env.src i` is the server's entry for index `i`; `Env.cls i p` says which
 callback, if any, the scanner's matcher selects for that entry (`some false` = certificate callback,
@@ -57,7 +59,7 @@ inductive Op where
   | stop
   | cancel
   | close
-  | take (m : Nat)
+  | take (m j : Nat)
   | proc (m : Nat)
 deriving Repr, DecidableEq
 
@@ -105,9 +107,9 @@ def step (e : Env) (s : St) : Op → St
   | .stop => { s with stopReq := true }
   | .cancel => { s with stopReq := true, cancelled := true }
   | .close => if closeEnabled s then { s with closed := true } else s
-  | .take m =>
-    match s.matchers[m]?, s.queue with
-    | some none, x :: q => { s with matchers := s.matchers.set m (some x), queue := q }
+  | .take m j =>
+    match s.matchers[m]?, s.queue[j]? with
+    | some none, some x => { s with matchers := s.matchers.set m (some x), queue := s.queue.eraseIdx j }
     | _, _ => s
   | .proc m =>
     match s.matchers[m]? with
@@ -120,7 +122,7 @@ def run (e : Env) (s : St) (ops : List Op) : St := ops.foldl (step e) s
 
 /-- an op that moves the scan forward (everything except errors, requests to stop, and growth of the log) -/
 def Op.isProgress : Op → Bool
-  | .hand _ | .resp _ _ | .close | .take _ | .proc _ => true
+  | .hand _ | .resp _ _ | .close | .take _ _ | .proc _ => true
   | _ => false
 
 /-- ops a contract-abiding server and the real scheduler can produce -/
@@ -147,9 +149,9 @@ def enabled (s : St) : Op → Bool
   | .stop => true
   | .cancel => true
   | .close => closeEnabled s
-  | .take m =>
-    match s.matchers[m]?, s.queue with
-    | some none, _ :: _ => true
+  | .take m j =>
+    match s.matchers[m]?, s.queue[j]? with
+    | some none, some _ => true
     | _, _ => false
   | .proc m =>
     match s.matchers[m]? with
